@@ -117,7 +117,9 @@ ASSUME CatalogueWellFormed
    reached after an overrun is another.  Outside them: *)
 Under(f) == IF taw THEN Impl(f, pt).cls < Entry(f, pt).lo
             ELSE Entry(f, pt).lo # None /\ Impl(f, pt).cls = None
-NoUnder == (\A f \in FS : ~Under(f)) /\ ~(StopsBeforeNlri(FS) /\ \E f \in FS : f.a = "NLRI")
+NoUnder == /\ \A f \in FS : ~Under(f)
+           /\ ~(StopsBeforeNlri(FS) /\ \E f \in FS : f.a = "NLRI")
+           /\ DecSeen(FS, pt) = StageOf(FS, pt, "dec")
 
 (* "strongest wins" holds for the repaired combination rule ... *)
 D_C06_NeverWeaker_Fixed == NoUnder => MechClass(FS, pt, taw, TRUE) >= Lo(FS, pt, taw)
